@@ -40,9 +40,10 @@ pub static mut EXAMINED: u32 = 0;
 pub static mut SEEN: u32 = 0;
 
 /// The harness' string table: every string a payload can contain.  Set concretely
-/// at the start of each harness.
-pub const NSTR: usize = 6;
+/// at the start of each harness (`set_tab`); `TABN` entries are in use.
+pub const NSTR: usize = 8;
 pub static mut TAB: [&'static str; NSTR] = [""; NSTR];
+pub static mut TABN: usize = 0;
 
 pub fn reset_src() {
     unsafe {
@@ -51,27 +52,37 @@ pub fn reset_src() {
     }
 }
 
-/// One concrete branch per candidate (never a symbolic-length copy).
+/// One concrete branch per candidate (never a symbolic-length copy).  `TABN` is
+/// concrete, so the branches beyond the table are pruned by constant propagation.
 pub fn mkstr(id: u8) -> String {
     unsafe {
-        match id {
-            0 => TAB[0].to_string(),
-            1 => TAB[1].to_string(),
-            2 => TAB[2].to_string(),
-            3 => TAB[3].to_string(),
-            4 => TAB[4].to_string(),
-            _ => TAB[5].to_string(),
+        if id == 0 || TABN <= 1 {
+            TAB[0].to_string()
+        } else if id == 1 || TABN <= 2 {
+            TAB[1].to_string()
+        } else if id == 2 || TABN <= 3 {
+            TAB[2].to_string()
+        } else if id == 3 || TABN <= 4 {
+            TAB[3].to_string()
+        } else if id == 4 || TABN <= 5 {
+            TAB[4].to_string()
+        } else if id == 5 || TABN <= 6 {
+            TAB[5].to_string()
+        } else if id == 6 || TABN <= 7 {
+            TAB[6].to_string()
+        } else {
+            TAB[7].to_string()
         }
     }
 }
 
 /// Identify a string of the table by (length, first byte, last byte).  The tables
-/// are chosen so that this is injective; `check_tab` asserts it.
+/// are chosen so that this is injective; `set_tab` asserts it.  255: not in the table.
 pub fn ident(s: &str) -> u8 {
     let b = s.as_bytes();
     let n = b.len();
     let mut i = 0;
-    while i < NSTR {
+    while i < unsafe { TABN } {
         let t = unsafe { TAB[i] }.as_bytes();
         if t.len() == n && (n == 0 || (t[0] == b[0] && t[n - 1] == b[n - 1])) {
             return i as u8;
@@ -81,15 +92,21 @@ pub fn ident(s: &str) -> u8 {
     255
 }
 
-pub fn set_tab(t: [&'static str; NSTR]) {
+pub fn set_tab(t: &[&'static str]) {
+    assert!(t.len() <= NSTR, "harness: string table too long");
     unsafe {
-        TAB = t;
+        TABN = t.len();
+        let mut i = 0;
+        while i < t.len() {
+            TAB[i] = t[i];
+            i += 1;
+        }
     }
     // injectivity of `ident` on the table (concrete: folded by the symbolic executor)
     let mut i = 0;
-    while i < NSTR {
+    while i < t.len() {
         let mut j = i + 1;
-        while j < NSTR {
+        while j < t.len() {
             let a = t[i].as_bytes();
             let b = t[j].as_bytes();
             let same = a.len() == b.len() && (a.len() == 0 || (a[0] == b[0] && a[a.len() - 1] == b[b.len() - 1]));
